@@ -120,6 +120,7 @@ type lbRun struct {
 	Bounds  layerb.Bounds
 	Assume  []string
 	Rule    string
+	noExplore bool
 }
 
 type lbResult struct {
@@ -131,6 +132,12 @@ type lbResult struct {
 	GenUnexp []*layerb.Conv // expected failure, generation succeeded
 	Fatal    string
 	Wall     time.Duration
+}
+
+// runNoExplore builds the corpus, generates and loads it, without exploring.
+func (lr *lbRun) runNoExplore() *lbResult {
+	lr.noExplore = true
+	return lr.run()
 }
 
 func (lr *lbRun) run() *lbResult {
@@ -181,6 +188,10 @@ func (lr *lbRun) run() *lbResult {
 		if c.GenOK && !c.ExpectFail {
 			ok = append(ok, c)
 		}
+	}
+	if lr.noExplore {
+		res.Wall = time.Since(t0)
+		return res
 	}
 	res.Reports = d.Explore(ok, lr.Check, lr.EOpt)
 	res.Stats.Unsupported = map[string]int{}
